@@ -313,6 +313,10 @@ func zzKVStepRedis() {
 		if vBool(name + "Nil") {
 			return nil
 		}
+		if vParam("FARFUTURE") == 1 && vChoose(name+"Never", 2) == 1 {
+			t := now.Add(time.Duration(1<<63 - 1)) // the "never expires" idiom: as far ahead as a Duration reaches
+			return &t
+		}
 		off := vInt64(name + "Off")
 		vAssume(off <= 1<<50 && off >= -(1<<50))
 		if vParam("EXPIRED") == 1 && name == "preExp" {
